@@ -27,7 +27,11 @@ BUDGET = {
 }
 
 ALPHABET = ['def', 'class', 'if', 'else', 'elif', 'for', 'in', 'while', 'return', 'lambda', 'not', 'and', 'or', 'is', 'try', 'except', 'as', 'with', 'import', 'from', 'pass', 'raise', 'yield', 'assert',
-	'del', 'x', 'self', 'A', 'f', '1', '2.5', '"s"', "'t'", '(', ')', '[', ']', '{', '}', ',', ':', '.', '=', '+', '-', '*', '/', '%', '==', '<', '->', '@', '**', '...', '+=', '|', '&', '~', '\n', '\n\t', '\n\t\t', '\n  ', ' ', '#c']
+	'del', 'x', 'self', 'A', 'f', '1', '2.5', '"s"', "'t'", '(', ')', '[', ']', '{', '}', ',', ':', '.', '=', '+', '-', '*', '/', '%', '==', '<', '->', '@', '**', '...', '+=', '|', '&', '~', '\n', '\n\t', '\n\t\t', '\n  ', ' ', '#c',
+	# literal and operator forms of Python that the shipped grammar tokenises but the node model may not know (binary / octal / imaginary numbers,
+	# byte / raw / f-strings, matrix-multiply, floor division, walrus, star expressions, ellipsis, None / True / False as targets)
+	'0b1010', '0o17', '1j', '1_000', '1e5', '0xFF', "b'x'", "r'\\d'", "f'{x}'", '@=', '//', ':=', '*x', '**x', 'None', 'True', 'global', 'nonlocal', 'async', 'await', 'match', 'case', 'type',
+	'\n0b1\n', '\n1j\n', '\n0o7\n']
 
 
 class Timeout(Exception):
@@ -94,6 +98,9 @@ def cases(draw):
 	if c <= 7:
 		src, _ = syngen.gen_module(rnd, rnd.choice(['mixed', 'mixed', 'expr']), friendly=rnd.random() < 0.7)
 		return {'source': src, 'kind': 'ill-typed'}
+	if rnd.random() < 0.3:
+		# bare expression statements at module level: resolved while the module's statements are listed, before any preprocessor runs
+		return {'source': '\n'.join(rnd.choice(ALPHABET).strip() for _ in range(rnd.randint(1, 4))) + '\n', 'kind': 'soup-lines'}
 	return {'source': ''.join(rnd.choice(ALPHABET) + rnd.choice(['', ' ', ' ']) for _ in range(rnd.randint(1, 25))), 'kind': 'soup'}
 
 
